@@ -119,7 +119,7 @@ type container interface {
 	Row(int) seq.Sequence
 }
 
-func qual(r, i int) alphabet.Qphred { return alphabet.Qphred(10 + 9*r + i) }
+func qual(r, i int) alphabet.Qphred { return alphabet.Qphred(10 + 9*r + i%64) } // stays a valid, non-zero score on long rows
 
 func build(k kase) (container, *model) {
 	m := &model{kind: k.Kind}
@@ -286,7 +286,7 @@ func compare(c container, m *model) string {
 func colLetters(n, salt int) []alphabet.QLetter {
 	out := make([]alphabet.QLetter, n)
 	for i := range out {
-		out[i] = alphabet.QLetter{L: alphabet.Letter("acg-"[(i+salt)%4]), Q: alphabet.Qphred(20 + 3*salt + i)}
+		out[i] = alphabet.QLetter{L: alphabet.Letter("acg-"[(i+salt)%4]), Q: alphabet.Qphred(20 + (3*salt+i)%64)}
 	}
 	return out
 }
@@ -331,6 +331,54 @@ func apply(c container, m *model, op string, frz *[]frozen, errp *string) (conta
 			return v.AppendEach(runs)
 		}
 		return nil
+	}
+	// parametrised edits of the size ladder: "AE@n" AppendEach with runs of n, n/2, 0, n, ... letters;
+	// "AC@n" AppendColumns with n columns in one call
+	if strings.HasPrefix(op, "AE@") || strings.HasPrefix(op, "AC@") {
+		var k int
+		fmt.Sscan(op[3:], &k)
+		if n == 0 || k <= 0 {
+			return c, false
+		}
+		if op[:2] == "AC" {
+			var cols [][]alphabet.QLetter
+			for j := 0; j < k; j++ {
+				cols = append(cols, colLetters(n, j+3))
+			}
+			for i := range m.rows {
+				for j := 0; j < k; j++ {
+					m.rows[i].cells = append(m.rows[i].cells, cols[j][i])
+				}
+			}
+			if err := appendCols(cols...); err != nil {
+				*errp = fmt.Sprintf("AppendColumns of %d well-formed columns returned %v", len(cols), err)
+				return c, false
+			}
+			for _, col := range cols {
+				scribbleQ(col)
+			}
+			return c, true
+		}
+		runs := make([][]alphabet.QLetter, n)
+		for i := range runs {
+			runs[i] = colLetters([]int{k, k / 2, 0}[i%3], i+1)
+		}
+		for i := range m.rows {
+			m.rows[i].cells = append(m.rows[i].cells, runs[i]...)
+			if m.aligned() {
+				for j := len(runs[i]); j < k; j++ {
+					m.rows[i].cells = append(m.rows[i].cells, alphabet.QLetter{L: gap})
+				}
+			}
+		}
+		if err := appendEach(runs); err != nil {
+			*errp = fmt.Sprintf("AppendEach of %d runs returned %v", len(runs), err)
+			return c, false
+		}
+		for _, r := range runs {
+			scribbleQ(r)
+		}
+		return c, true
 	}
 	switch op {
 	case "ACX":
@@ -661,7 +709,7 @@ func search(c *enum.Ctx, base kase, depth int, states, trans, traces *atomic.Int
 }
 
 func run(c *enum.Ctx) {
-	c.Rule("initial grids: alignment.Seq/QSeq 1..3 rows x 1..3 columns, multi.Multi (plain and quality rows) with every layout of 1..3 rows (quick: three-row layouts only with edit sequences of length <= 2; offsets 0..2, lengths 1..3) over letters {a,c,g,-} with distinct qualities; breadth-first search over edit sequences of depth <=3 (thorough 4) over {AppendColumns 1/2 columns, AppendEach with two unequal run shapes, Delete first/last, Add a linear sequence, Flush start/end/both, Truncate (covered range, and one shorter), Subseq, Clone-and-continue, Clone-and-keep, Set}; caller buffers are overwritten after every append; after each edit Row(i).At(p), Column(p,true/false), ColumnQL(p,true), Rows/Len/Start/End, row names and the count consensus of uniform columns are compared with a plain grid model, and every retained clone/original must be unchanged; states merged on the model grid (first two levels unmerged)")
+	c.Rule("initial grids: alignment.Seq/QSeq 1..3 rows x 1..3 columns, multi.Multi (plain and quality rows) with every layout of 1..3 rows (quick: three-row layouts only with edit sequences of length <= 2; offsets 0..2, lengths 1..3) over letters {a,c,g,-} with distinct qualities; breadth-first search over edit sequences of depth <=3 (thorough 4) over {AppendColumns 1/2 columns, AppendEach with two unequal run shapes, Delete first/last, Add a linear sequence, Flush start/end/both, Truncate (covered range, and one shorter), Subseq, Clone-and-continue, Clone-and-keep, Set}; caller buffers are overwritten after every append; after each edit Row(i).At(p), Column(p,true/false), ColumnQL(p,true), Rows/Len/Start/End, row names and the count consensus of uniform columns are compared with a plain grid model, and every retained clone/original must be unchanged; the size ladder: grids with 2^k-1, 2^k, 2^k+1 columns (3..257, thorough 1025) and appends of that many columns / runs of that many, half that many and no letters, under nine fixed edit lists; states merged on the model grid (first two levels unmerged)")
 	c.Assume("column-stored alignments at offset 0; alignment.QSeq.Column compared only where the quality is at least the container's threshold", "fill letter for uncovered rows is the alphabet's gap with quality 0")
 	depth := 3
 	maxRows := 2
@@ -724,7 +772,49 @@ func run(c *enum.Ctx) {
 			jobs = append(jobs, job{kase{Kind: kind, Rows: l}, d})
 		}
 	}
+	// the size ladder: grids of 2 and 3 rows with 2^k-1, 2^k, 2^k+1 columns (3..257, thorough 1025), and
+	// appends of that many columns / runs of that many letters, under a handful of fixed edit lists
+	topN := 257
+	if !c.Quick {
+		topN = 1025
+	}
+	var ladder []kase
+	for _, n := range enum.Ladder(3, topN) {
+		for _, kind := range []string{"aseq", "aqseq", "multi", "mqulti"} {
+			for nr := 2; nr <= 3; nr++ {
+				var small, big []rowDef
+				for r := 0; r < nr; r++ {
+					off := 0
+					if kind == "multi" || kind == "mqulti" {
+						off = r % 2
+					}
+					b := make([]byte, n)
+					for i := range b {
+						b[i] = "acg-"[(i*3+r+i/7)%4]
+					}
+					big = append(big, rowDef{off, string(b)})
+					small = append(small, rowDef{off, string(b[:2])})
+				}
+				for _, ops := range [][]string{{fmt.Sprint("AE@", n)}, {fmt.Sprint("AC@", n), "AE"}, {"CL", fmt.Sprint("AE@", n), "DL0"}, {fmt.Sprint("AE@", n), fmt.Sprint("AE@", n+1), "FB"}} {
+					ladder = append(ladder, kase{Kind: kind, Rows: small, Ops: ops})
+				}
+				for _, ops := range [][]string{{"AE"}, {"CK", "AC1", "SET"}, {"FB", "TR1"}, {"SS", "AE2"}, {"DLl", "ADD"}} {
+					ladder = append(ladder, kase{Kind: kind, Rows: big, Ops: ops})
+				}
+			}
+		}
+	}
+	c.Set("ladder_cases", len(ladder))
 	var states, trans, traces atomic.Int64
+	enum.Parallel(len(ladder), func(i int) {
+		k := ladder[i]
+		k.slot = i
+		c.Eval()
+		_, st, _ := play(c, k)
+		traces.Add(1)
+		trans.Add(int64(st))
+		c.Nontrivial(enum.J(k))
+	})
 	enum.Parallel(len(jobs), func(i int) {
 		nt := enum.NontrivialSet{}
 		b := jobs[i].k
